@@ -90,12 +90,19 @@ class MidiFile:
                 if msg.message_type == MessageType.NOTE_ON and any(i in indices for indices in track_indices):
                     note_on = Message(message_type=MessageType.NOTE_ON, channel=msg.channel, note=msg.note,
                                       velocity=msg.velocity, time=rounded_point_in_time)
-                    current_sequence.add_absolute_message(note_on)
-                    open_notes[(msg.channel, msg.note)] = note_on
+                    sounding = open_notes.setdefault((msg.channel, msg.note), [])
+                    # A note struck again while it sounds only deepens the nesting, the sounding note continues
+                    if len(sounding) == 0:
+                        current_sequence.add_absolute_message(note_on)
+                    sounding.append(note_on)
                 # Note Off
                 elif msg.message_type == MessageType.NOTE_OFF and any(i in indices for indices in track_indices):
-                    note_on = open_notes.pop((msg.channel, msg.note), None)
-                    if note_on is not None and note_on.time == rounded_point_in_time:
+                    sounding = open_notes.get((msg.channel, msg.note), [])
+                    note_on = sounding.pop() if len(sounding) > 0 else None
+                    if len(sounding) > 0:
+                        # Closes a nested strike, the sounding note continues
+                        pass
+                    elif note_on is not None and note_on.time == rounded_point_in_time:
                         # Note starts and ends on the same tick, remove it instead of closing it
                         current_sequence.abs._messages.remove(note_on)
                     else:
